@@ -326,7 +326,7 @@ Theorem apply_run_props_inherits f b i sup :
 Proof. unfold apply_run_props. destruct (negb b && negb i && negb sup); [reflexivity|].
   rewrite set_prop_others by (now right). apply set_prop_others. now left. Qed.
 Definition is_on (tag : N) (l : list (N * N)) : bool := existsb (fun tv => N.eqb (fst tv) tag && negb (N.eqb (snd tv) 0)) l.
-Lemma set_first_on tag : forall l, existsb (fun tv => N.eqb (fst tv) tag) l = true -> is_on tag (set_first tag 1%N l false) = true.
+Lemma set_first_on tag : forall l, existsb (fun tv => N.eqb (fst tv) tag) l = true -> is_on tag (set_first tag 2%N l false) = true.
 Proof. unfold is_on. induction l as [|[t v] r IH]; [discriminate|]. cbn [existsb fst set_first]. destruct (N.eqb t tag) eqn:Et; cbn [andb negb orb].
   - intros _. cbn [existsb fst snd]. now rewrite Et.
   - intros H. cbn [existsb fst snd]. rewrite Et. cbn [andb orb]. now apply IH. Qed.
@@ -394,3 +394,26 @@ Proof. unfold insertion_anchor.
   all: try (match goal with H : do_split ?dd ?u ?k = (?d2, _, _) |- _ => pose proof (ARel_split dd u k) as S2; rewrite H in S2; cbn [fst] in S2; exact S2 end).
 Qed.
 Print Assumptions resolve_keeps_tape.
+
+(* ---------- histories: every session satisfies its single-step contract relative to the document it loaded ---------- *)
+From Adeu Require Import History.
+Definition session_contract (d : doc) (s : session) (d' : doc) : Prop :=
+  match s with
+  | SEdits a t es o => let nd := normalize_doc d in Rel (scan_ids nd) (next_comment_id nd) nd d'
+  | SReview a t acts => exists ap sk, review_session d a t acts = (d', ap, sk) /\ ap + sk = length acts
+  | SAcceptAll => d' = accept_all_doc (normalize_doc d)
+  end.
+Lemma run_session_contract d s : session_contract d s (run_session d s).
+Proof. destruct s as [a t es o|a t acts|]; cbn [run_session session_contract].
+  - pose proof (engine_rel d a t es o) as H. cbn zeta in H. destruct (apply_edits d a t es o) as [[[d' ap] sk] out]. exact (proj1 H).
+  - pose proof (actions_count (reply_doc a t) (normalize_doc d) acts) as H. unfold review_session in *.
+    destruct (apply_actions (reply_doc a t) (normalize_doc d) acts) as [[d' ap] sk]. exists ap, sk. auto.
+  - reflexivity. Qed.
+Fixpoint trace_ok (d : doc) (ss : list session) (tr : list doc) : Prop :=
+  match ss, tr with
+  | [], [] => True
+  | s :: r, d' :: tr' => session_contract d s d' /\ trace_ok d' r tr'
+  | _, _ => False end.
+Theorem history_contracts : forall ss d, trace_ok d ss (run_history d ss).
+Proof. induction ss as [|s r IH]; intros d; cbn [run_history trace_ok]; auto. split; [apply run_session_contract|apply IH]. Qed.
+Print Assumptions history_contracts.
